@@ -425,6 +425,24 @@ Section RoundTrip.
     destruct (encrypt_decrypt_roundtrip s k h (wrap p) rnd Hk Hh H4 Hl Hr) as (ct & pad & E & _ & D & _).
     exists ct. split; [exact E|]. exists (wrap p). split; [exact D|apply Hw].
   Qed.
+  (* Conn.newEncryptedMessage: whichever branch the compression threshold selects, the server
+     decrypts the session's header and the body chosen by that branch *)
+  Theorem conn_roundtrip threshold k salt session msg_id seq_no payload gz rnd :
+    let h := {| h_salt := salt; h_session := session; h_msg_id := msg_id; h_seq_no := seq_no |} in
+    let body := conn_body threshold payload gz in
+    length (ak_id k) = 8%nat -> hdr_ok h ->
+    Z.of_nat (length body) mod 4 = 0 -> Z.of_nat (length body) < 2 ^ 31 ->
+    rnd_enough (32 + Z.of_nat (length body)) rnd ->
+    exists ct, conn_encrypt sha256 aes_enc threshold k salt session msg_id seq_no payload gz rnd = Ok ct /\
+               decrypt_msg sha256 aes_dec Server k ct = Ok (h, body).
+  Proof.
+    intros h body Hk Hh H4 Hl Hr.
+    destruct (encrypt_decrypt_roundtrip Client k h body rnd Hk Hh H4 Hl Hr) as (ct & pad & E & _ & D & _).
+    exists ct. split; [|exact D].
+    unfold conn_encrypt. fold h. unfold body, conn_body in E.
+    destruct (threshold <=? 0); [exact E|].
+    destruct (Z.of_nat (length payload) >? threshold); exact E.
+  Qed.
 End RoundTrip.
 
 Lemma rnd_enough_268 n rnd : 0 <= n -> (268 <= length rnd)%nat -> rnd_enough n rnd.
